@@ -3582,7 +3582,8 @@ def check_C17(res):
                 res.violation("a client that answered every PING in time was disconnected at t=%d ms (pattern %s, ping=%d pong=%d)" % (r["eof"], r["pattern"], ping, pong),
                               {"kind": "timing", "scenario": r, "model": p, "case": case}, found=True)
     for nick, pat, dropped, gone in cleanup:
-        if dropped != gone:
+        # (a kept client has closed its own socket at the end of its scenario, so only the dropped ones are judged)
+        if dropped and not gone:
             res.violation("after the keep-alive %s client %s (%s), WHOIS from a live client says it is %s" % (
                 "dropped" if dropped else "kept", nick, pat, "gone" if gone else "still registered"), {"kind": "timing"}, found=True)
     # PING -> PONG token echo, through the ordinary trace machinery (also ties process_ping/process_pong to the model)
